@@ -84,9 +84,20 @@ def positionAttribute : String := "Position"
 /-- `Quaternion.RotateArray` -/
 def rotateArray (q : quaternion.Quaternion s) (arr : Array (V3 s)) : Array (V3 s) :=
   mapLoop (fun _ v => q.Rotate v) arr
-/-- `TRS.TransformArray` (and the values `TransformInPlace` leaves in its argument) -/
+/-- `TRS.TransformArray` -/
 def transformArray (t : trs.TRS s) (arr : Array (V3 s)) : Array (V3 s) :=
   mapLoop (fun _ v => t.Transform v) arr
+
+/-- the in-place loop `for i, v := range in { in[i] = f(v) }`: element `i` is read from the array that is being overwritten
+    (the `range` expression is evaluated once; the store at `i` happens after the read of `in[i]`) -/
+def inPlaceLoop (f : V3 s → V3 s) (i : Nat) (arr : Array (V3 s)) : Array (V3 s) :=
+  if h : i < arr.size then inPlaceLoop f (i + 1) (arr.set i (f arr[i])) else arr
+termination_by arr.size - i
+decreasing_by simp only [Array.size_set]; omega
+
+/-- `TRS.TransformInPlace`: the contents of the caller's slice afterwards -/
+def transformInPlace (t : trs.TRS s) (arr : Array (V3 s)) : Array (V3 s) :=
+  inPlaceLoop (fun v => t.Transform v) 0 arr
 
 /-- `RotateAttribute3D(m, attr, q)`; `Mesh.Rotate(q)` is the same loop on `Position` -/
 def rotateAttr (m : Mesh s) (attr : String) (q : quaternion.Quaternion s) : Option (Mesh s) :=
